@@ -1149,6 +1149,11 @@ class Facts:
                 mname = c.decl.rsplit("::", 1)[-1]
                 tgt = [b for b in self.body_list
                        if b.impl_trait == c.trait and b.name == mname]
+            elif c.decl in ("std::convert::TryInto::try_into", "std::convert::Into::into") and len(c.gargs) >= 2:
+                # the blanket impls in core forward to the crate's own TryFrom / From impl for the target type
+                tr, mn = ("std::convert::TryFrom", "try_from") if c.decl.endswith("try_into") else ("std::convert::From", "from")
+                dst = c.gargs[1].replace("rpm::", "")
+                tgt = [b for b in self.body_list if b.impl_trait == tr and b.name == mn and b.kind != "closure" and (b.impl_self or "").replace("rpm::", "") == dst]
             if tgt:
                 for t in tgt:
                     out.append((c, t))
